@@ -279,8 +279,11 @@ class Check:
         ev = dict(property_id=self.pid, tier=self.tier, seed=self.seed, level=self.level, coverage=cov,
                   assumptions=self.assumptions, wall_s=round(wall, 2), violations=len(self.violations),
                   known_findings_hit=sorted(self.known_hit))
-        os.makedirs(os.path.join(VERIF, "evidence"), exist_ok=True)
-        with open(os.path.join(VERIF, "evidence", self.pid + ".json"), "w") as f:
+        # evidence describes runs against /repo itself; runs against a scratch worktree (VERIF_REPO, development and
+        # seeded-change runs) leave theirs in the cache
+        evdir = os.path.join(VERIF, "evidence") if os.path.realpath(REPO) == "/repo" else os.path.join(CACHE, "evidence-scratch")
+        os.makedirs(evdir, exist_ok=True)
+        with open(os.path.join(evdir, self.pid + ".json"), "w") as f:
             json.dump(ev, f, indent=1, default=str)
         for k, f_ in sorted(self.known_hit.items()):
             print("KNOWN-FINDING: property=%s %s" % (self.pid, f_["what"]))
